@@ -36,10 +36,11 @@ abbrev ADb := KMap AEntry
 
 def sortK {α : Type} (m : KMap α) : KMap α := m.mergeSort fun a c => bytesLe a.1 c.1
 
+/-- bytes a hash reader returns for a field value (floats are rendered with FormatFloat 'f') -/
 def scalarText : Scalar → Bytes
   | .str s => s
   | .int i => fmtInt i
-  | .flt f => f.fmtG
+  | .flt f => f.fmtF
 
 def absVal : Val → AVal
   | .nil => .nilv
